@@ -58,6 +58,8 @@ impl Framed {
                 // write_all_buf advances `buf` by whatever was written, even if we're dropped
                 self.inner.write_all_buf(buf).await?;
             }
+            // see `write`: a queueing transport needs to be flushed
+            self.inner.flush().await?;
         }
         Ok(())
     }
@@ -165,6 +167,8 @@ impl Framed {
         if !buf.is_empty() {
             self.inner.write_all_buf(&mut buf).await?;
         }
+        // a transport that queues what it is given (the websocket one) only hands it on when it is flushed
+        self.inner.flush().await?;
 
         Ok(())
     }
